@@ -49,6 +49,10 @@ Edit == /\ pc = "edit" /\ Len(edits) < MaxEdits
            \/ \E pos \in 1..(Len(file)+1) :
                 /\ file' = InsLine(file, pos, [t |-> "blank", toks |-> <<>>])
                 /\ edits' = Append(edits, [e |-> "blank", pos |-> pos])
+           \* a hand-written line holding one short token ("5"): two characters with the newline
+           \/ \E pos \in 1..(Len(file)+1) :
+                /\ file' = InsLine(file, pos, [t |-> "data", toks |-> <<Tab.short>>])
+                /\ edits' = Append(edits, [e |-> "short", pos |-> pos])
            \/ \E pos \in 1..Len(file) :
                 /\ file[pos].t = "data" /\ Len(file[pos].toks) > 1
                 /\ file' = [file EXCEPT ![pos].toks = Reverse(@)]
